@@ -69,6 +69,15 @@ Definition short_name (env : enum_env) (n : Z) : option str :=
        end
   else None.
 
+(* an explicit zero option is spelled UNSPECIFIED or <prefix>UNSPECIFIED (the
+   reader derives the enum's prefix from the name of value 0; with another name
+   ending in UNSPECIFIED every reflected option name changes: known finding) *)
+Definition zero_std (env : enum_env) : bool :=
+  match ee_zero env with
+  | Some z => str_eqb (with_prefix env z) (ee_prefix env ++ unspecified)%list
+  | None => true
+  end.
+
 Fixpoint names_in (env : enum_env) (ns : list Z) : outcome (list str) :=
   match ns with
   | [] => Ok []
@@ -88,7 +97,10 @@ Fixpoint names_notin (env : enum_env) (ns : list Z) : outcome (list str) :=
   end.
 
 (* ---- buildFromStringProto ------------------------------------------------- *)
-Inductive sfmt := SfUuid | SfId62 | SfNatural.
+Inductive sfmt := SfUuid | SfId62 | SfNatural | SfDate | SfNumber.
+
+Definition fmt_date : str := [100;97;116;101].              (* "date" *)
+Definition fmt_number : str := [110;117;109;98;101;114].    (* "number" *)
 
 Definition date_pattern : str := [94;92;100;123;52;125;45;92;100;123;50;125;45;92;100;123;50;125;36].   (* ^\d{4}-\d{2}-\d{2}$ *)
 Definition number_pattern : str := [94;92;100;40;46;63;92;100;41;63;36].                                  (* ^\d(.?\d)?$ *)
@@ -99,13 +111,18 @@ Definition read_string (vt : option tyc) (lst : option (larm * lpay)) (j5 : opti
   obind (match vt with
          | None => Ok (None, None, false)
          | Some (CStr mn mx pat uuid) =>
-             if match pat with Some p => str_eqb p date_pattern || str_eqb p number_pattern | None => false end
-             then Err "well-known string format outside the model"
-             else
-               let is62 := match pat with Some p => str_eqb p Id62Gen.pattern_string | None => false end in
-               Ok (Some (SR (if is62 then None else pat) mn mx),
-                   (if uuid then Some SfUuid else if is62 then Some SfId62 else None),
-                   uuid)
+             (* wellKnownStringPatterns: the pattern becomes a format and is dropped from the rules;
+                the uuid well-known rule then overwrites the format *)
+             let wk := match pat with
+                       | Some p => if str_eqb p date_pattern then Some SfDate
+                                   else if str_eqb p number_pattern then Some SfNumber
+                                   else if str_eqb p Id62Gen.pattern_string then Some SfId62
+                                   else None
+                       | None => None
+                       end in
+             Ok (Some (SR (if is_some wk then None else pat) mn mx),
+                 (if uuid then Some SfUuid else wk),
+                 uuid)
          | Some _ => Err "constraint for string is not a string constraint"
          end)
     (fun v =>
@@ -139,14 +156,19 @@ Definition read_string (vt : option tyc) (lst : option (larm * lpay)) (j5 : opti
                 let looks_like_key :=
                   key0 || is_some fkrules || is_some key
                   || match fmt with Some SfId62 => true | _ => false end
-                  || match j5 with Some XKey => true | _ => false end in
+                  || match j5 with Some (XKey _) => true | _ => false end in
                 if negb looks_like_key
-                then Ok (TStr None rules open_text)
+                then Ok (TStr (match fmt with
+                               | Some SfDate => Some fmt_date
+                               | Some SfNumber => Some fmt_number
+                               | _ => None          (* uuid / id62 / natural_key look like keys *)
+                               end) rules open_text)
                 else Ok (TKey (match fmt with
                                | Some SfUuid => Some KUuid
                                | Some SfId62 => Some KId62
                                | Some SfNatural => Some KInformal
-                               | None => None
+                               (* otherwise what the key annotation says *)
+                               | Some SfDate | Some SfNumber | None => match j5 with Some (XKey f) => f | _ => None end
                                end)
                               (match key with
                                | Some k =>
@@ -172,8 +194,8 @@ Definition read_field (env : enum_env) (k : pkind) (vt : option tyc) (lst : opti
   | KdInt64 => Ok (TInt I64 (read_int_rules I64 vt) (get_list LInt64 lst))
   | KdUint32 => Ok (TInt U32 (read_int_rules U32 vt) (get_list LUint32 lst))
   | KdUint64 => Ok (TInt U64 (read_int_rules U64 vt) (get_list LUint64 lst))
-  | KdFloat => Ok (TFloat false (get_list LFloat lst))
-  | KdDouble => Ok (TFloat true (get_list LDouble lst))
+  | KdFloat => Ok (TFloat false false (get_list LFloat lst))
+  | KdDouble => Ok (TFloat true false (get_list LDouble lst))
   | KdBytes =>
       Ok (TBytes (Some (match vt with Some (CBytes mn mx) => LR mn mx | _ => LR None None end)))
   | KdEnum =>
@@ -185,10 +207,16 @@ Definition read_field (env : enum_env) (k : pkind) (vt : option tyc) (lst : opti
              end)
         (fun r => Ok (TEnum r (get_list LEnum lst)))
   | KdTimestamp =>
-      match vt with
-      | Some CTimestamp => Err "timestamp rules outside the model"
-      | _ => Ok (TTimestamp (get_list LTimestamp lst))
-      end
+      (* wktSchema: lt / lte / gt / gte back into maximum / minimum + exclusive flags *)
+      Ok (TTimestamp (match vt with
+                      | Some (CTimestamp ub lb) =>
+                          Some (TSR (match lb with NoLb => None | Gt z | Gte z => Some z end)
+                                    (match ub with NoUb => None | Lt z | Lte z => Some z end)
+                                    (match lb with Gt _ => Some true | _ => None end)
+                                    (match ub with Lt _ => Some true | _ => None end))
+                      | _ => None
+                      end)
+                     (get_list LTimestamp lst))
   | KdDate =>
       Ok (TDate (match j5 with Some (XDate r) => r | _ => None end) (get_list LDate lst))
   | KdDecimal =>
@@ -198,8 +226,9 @@ Definition read_field (env : enum_env) (k : pkind) (vt : option tyc) (lst : opti
       | Some (XAny od ts) => Ok (TAny od ts (get_list LAny lst))
       | _ => Ok (TAny false [] (get_list LAny lst))
       end
-  | KdMsgObject => Ok (TObject (match j5 with Some (XObject fl) => fl | _ => false end))
-  | KdMsgOneof => Ok (TOneof (get_list LOneof lst))
+  (* buildMessageFieldSchema: (buf.validate.field) is not looked at for objects and oneofs *)
+  | KdMsgObject => Ok (TObject (match j5 with Some (XObject fl) => fl | _ => false end) None)
+  | KdMsgOneof => Ok (TOneof false (get_list LOneof lst))
   | KdMapEntry _ | KdOther => Err "field kind outside the model"
   end.
 
@@ -230,6 +259,10 @@ Definition clean_desc (d : str) : str :=
                 (map trim (split_lines d [])))
   end.
 
+(* an item / value constraint without a type is "no type constraint" (ext.validate.Type == nil) *)
+Definition strip_empty (vt : option tyc) : option tyc :=
+  match vt with Some CEmpty => None | v => v end.
+
 (* ---- messageProperties: one property ---------------------------------------- *)
 Record rprop := RP { rp_prop : prop; rp_path : list N }.
 
@@ -248,7 +281,7 @@ Definition read_prop (env : enum_env) (o : fout) : outcome rprop :=
           | Some (CMap mn mx v) => (Some (MR mn mx), v)
           | _ => (None, None)
           end in
-      obind (read_field env vk values None None (fo_key o)) (fun t => Ok (mk req false (PMap rules t)))
+      obind (read_field env vk (strip_empty values) None None (fo_key o)) (fun t => Ok (mk req false (PMap rules t)))
   | k =>
       if fo_rep o
       then
@@ -259,7 +292,7 @@ Definition read_prop (env : enum_env) (o : fout) : outcome rprop :=
             | Some (CRep mn mx uq it) => (Some (AR mn mx uq), it)
             | _ => (None, None)
             end in
-        obind (read_field env k items (fo_list o) None (fo_key o))
+        obind (read_field env k (strip_empty items) (fo_list o) None (fo_key o))
           (fun t => Ok (mk req false
                           (PArray rules (match fo_ext o with Some (XArray sf) => sf | _ => None end) t)))
       else
@@ -276,12 +309,19 @@ Fixpoint read_object (env : enum_env) (os : list fout) : outcome (list rprop) :=
 (* ---- the schema a declaration denotes (what reading back must yield) ------- *)
 (* representation-only differences are normalised away:
    exclusive flags that are false or have no bound; absent enum / bytes rules
-   (read back as empty rules); enum option names in short form; a primary key is
-   required; primaryKey = false is the same as no entity type *)
+   (read back as empty rules); absent array / map rules when the items carry a
+   constraint (read back as empty rules); enum option names in short form; a
+   primary key is required; primaryKey = false is the same as no entity type.
+   Descriptions are NOT normalised. *)
 Definition norm_int (r : int_rules) : int_rules :=
   IR (ir_min r) (ir_max r)
      (if is_some (ir_min r) && is_true (ir_xmin r) then Some true else None)
      (if is_some (ir_max r) && is_true (ir_xmax r) then Some true else None).
+
+Definition norm_ts (r : ts_rules) : ts_rules :=
+  TSR (tsr_min r) (tsr_max r)
+      (if is_some (tsr_min r) && is_true (tsr_xmin r) then Some true else None)
+      (if is_some (tsr_max r) && is_true (tsr_xmax r) then Some true else None).
 
 Definition short (env : enum_env) (name : str) : str :=
   trim_prefix (ee_prefix env) (with_prefix env name).
@@ -300,38 +340,109 @@ Definition norm_fty (env : enum_env) (t : fty) : fty :=
                    | None => ER [] []
                    end)) l
   | TKey f e l => TKey f (match e with Some e => Some (norm_entity e) | None => None end) l
+  | TTimestamp r l => TTimestamp (match r with Some r => Some (norm_ts r) | None => None end) l
+  (* rules messages without content: present = absent *)
+  | TObject fl (Some (OBR None None)) => TObject fl None
+  | TOneof _ l => TOneof false l
   | t => t
   end.
 
-Definition is_primary_ty (t : fty) : bool :=
+(* does the declared item type carry a validation constraint of its own?
+   (from the declaration alone: rules present, an enum, a formatted key) *)
+Definition items_constrained (t : fty) : bool :=
   match t with
-  | TKey _ (Some e) _ => match ek_type e with Some (EPrimary true) => true | _ => false end
+  | TInt _ (Some _) _ | TStr _ (Some _) _ | TBytes (Some _) | TBool (Some _) _ => true
+  | TEnum _ _ => true
+  | TKey (Some _) _ _ => true
+  | TTimestamp (Some _) _ | TObject _ (Some _) | TOneof true _ => true
   | _ => false
   end.
 
+(* computed from the declaration alone (no writer function is called) *)
 Definition norm_prop (env : enum_env) (idx : N) (d : prop) : rprop :=
   let t := match p_ty d with PSingle t | PArray _ _ t | PMap _ t => t end in
   RP (P (p_name d) (p_req d || match p_ty d with PMap _ _ => false | _ => is_primary_ty t end) (p_opt d)
         (match p_ty d with
          | PSingle t => PSingle (norm_fty env t)
          | PArray r sf t =>
-             (* (empty) array rules are reported whenever the field carries a
-                repeated constraint, i.e. also when only the items have one *)
+             (* absent array rules equal empty ones when the items are constrained *)
              PArray (match r with
                      | Some r => Some r
-                     | None => match write_field env t with
-                               | Ok w => if is_some (fw_val w) then Some (AR None None None) else None
-                               | _ => None
-                               end
+                     | None => if items_constrained t then Some (AR None None None) else None
                      end) sf (norm_fty env t)
          | PMap r t =>
              PMap (match r with
                    | Some r => Some r
-                   | None => match write_field env t with
-                             | Ok w => if is_some (fw_val w) then Some (MR None None) else None
-                             | _ => None
-                             end
+                   | None => if items_constrained t then Some (MR None None) else None
                    end) (norm_fty env t)
          end)
-        (clean_desc (p_desc d)))
+        (p_desc d))               (* the description as declared *)
      [(idx + 1)%N].
+
+(* ---- the fragment of declarations every component of which the annotations carry ---- *)
+(* (proved exact in proofs/RulesReadProofs.v: a compiled property reads back as
+   declared iff rt_ok holds) *)
+(* the description survives commentDescription unchanged: no line starts with
+   '#', none has leading / trailing blanks, none is empty *)
+Definition desc_plain (d : str) : bool := str_eqb (clean_desc d) d.
+
+Definition pat_plain (p : option str) : bool :=
+  match p with
+  | Some p => negb (str_eqb p date_pattern) && negb (str_eqb p number_pattern)
+              && negb (str_eqb p Id62Gen.pattern_string)
+  | None => true
+  end.
+
+Inductive mode := MSingle | MArray | MMap.
+
+(* the declarations whose every component is carried by the annotations *)
+Definition no_list (t : fty) : bool :=
+  match t with
+  | TInt _ _ None | TStr _ _ None | TBytes _ | TBool _ None | TEnum _ None | TKey _ _ None
+  | TFloat _ _ None | TDate _ None | TDecimal _ None | TTimestamp _ None | TAny _ _ None
+  | TObject _ _ | TOneof _ None => true
+  | _ => false
+  end.
+
+Definition rt_fty (m : mode) (t : fty) : bool :=
+  (* list rules of map values are not read back *)
+  (match m with MMap => no_list t | _ => true end) &&
+  match m, t with
+  | _, TTimestamp (Some r) _ => negb (is_some (tsr_min r)) && negb (is_some (tsr_max r))   (* bounds are not written *)
+  | _, TObject _ (Some r) =>                 (* minProperties / maxProperties are not written *)
+      negb (is_some (obr_min r)) && negb (is_some (obr_max r))
+      && match m, t with MSingle, _ => true | _, TObject true _ => false | _, _ => true end
+  | _, TStr (Some _) _ _ => false            (* StringField.format is not written *)
+  | _, TStr None (Some r) _ => pat_plain (sr_pat r)
+  | _, TKey None e l =>
+      (* without a format the key is recognised by its annotations only; list
+         rules of an unformatted key make it read back as informal *)
+      match l with Some _ => false | None => match m with MSingle => true | _ => is_some e end end
+  | _, TKey (Some KUuid) _ _ | _, TKey (Some KId62) _ _ => true
+  (* custom pattern / informal live in (j5.ext.v1.field).key, which array items and map values do not have *)
+  | MSingle, TKey (Some KInformal) _ _ => true
+  (* a custom key with list rules is written as a unique_string foreign key, which reads back informal *)
+  | MSingle, TKey (Some (KCustom p)) _ l => negb (str_eqb p Id62Gen.pattern_string) && negb (is_some l)
+  | _, TKey (Some _) _ _ => false
+  | MSingle, _ => true
+  (* inside an array or a map there is no (j5.ext.v1.field) of the item *)
+  | _, TDate (Some _) _ | _, TDecimal (Some _) _ => false
+  | _, TObject true _ => false
+  | _, TAny od ts _ => negb od && match ts with [] => true | _ => false end
+  | _, _ => true
+  end.
+
+Definition rt_ok (d : prop) : bool :=
+  desc_plain (p_desc d) &&
+  match p_ty d with
+  | PSingle t => rt_fty MSingle t
+  (* explicitlyOptional is read for singular properties only *)
+  | PArray _ _ t => rt_fty MArray t && negb (p_opt d)
+  | PMap _ t => rt_fty MMap t && negb (p_opt d)
+  end.
+
+
+(* what the reader looks at: everything but the field's presence and its proto name *)
+Definition c04_proj (o : fout) : fout :=
+  FO (fo_json o) [] (fo_number o) (fo_kind o) (fo_rep o) (fo_opt o) false (fo_val o)
+     (fo_ext o) (fo_list o) (fo_key o) (fo_desc o).
